@@ -465,6 +465,15 @@ func (o *Ob) Table(fn *ssa.Function, key string, rows []Row) {
 						return false
 					}
 					ok := match(v)
+					if !ok && match("nil") {
+						// the row assumes this very value to be nil (an error tested together with another condition
+						// and returned as it is)
+						for _, a := range row.Assume {
+							if a.F(Lit{Atom: "(" + v + " == nil)", Pos: true}) {
+								ok = true
+							}
+						}
+					}
 					if !ok && v != "true" && v != "false" {
 						xs := e.XsAtFix(r, ret, val, func(x ssa.Value) (bool, bool) { return e.BoolUnder(fn, x, all) })
 						ok = len(xs) > 0
